@@ -403,6 +403,34 @@ pub async fn run(out: &mut Out) {
         out.stat("id_wrap_run");
     }
 
+    // ---- F. directed: a complete fragment set that is duplicated as a whole is delivered twice
+    {
+        let mut s = new_sess(out, HUGE);
+        s.eligible = false;
+        let fr = op_make(out, &mut s, 7, &[1, 2, 3, 4, 5]).unwrap();
+        op_reasm(out, &mut s, &fr[0], true);
+        op_reasm(out, &mut s, &fr[1], true);
+        op_reasm(out, &mut s, &fr[0], true);
+        let f = &mut s.f;
+        let r = no_panic(|| f.reassemble(Bytes::copy_from_slice(&fr[1])));
+        let delivered = matches!(r, Some(Some(_)));
+        out.case(
+            &format!("R {} {}", s.now, hex(&fr[1])),
+            match &r {
+                None => "panic".to_string(),
+                Some(None) => "none".to_string(),
+                Some(Some(tb)) => format!("frame {}", hex(&tb.buf)),
+            }
+            .as_str(),
+        );
+        if delivered {
+            out.oracle_fail(
+                "dup-complete-set-redelivered",
+                "every fragment of a 2-fragment frame duplicated (f0 f1 f0 f1): the frame is delivered twice",
+            );
+        }
+    }
+
     // ---- E. real-time timer scenarios (timeout 300 ms, clock steps of 200 ms)
     {
         let reps = if thorough { 6 } else { 2 };
